@@ -17,10 +17,11 @@ def run(ck):
     ck.stubs += STUBS
     ck.trusted += ['Kani 0.68 / CBMC 6.11 (dev profile)', 'reduction: a clock shows fields F at u iff u + offset(u) = unix_time(F) (C01 + C02)']
     hs = [H('c05_table_n2', cap=1800, meaning='n<=2 (+fixed rule): soundness (each valid result round-trips through the forward lookup with the same type and shows the searched fields), completeness for an arbitrary instant, no duplicates, ascending, unique() iff single valid result')]
+    hs.append(H('c05_table_leap1_n2', cap=(2400 if quick else 7200), meaning='n<=2 with one leap-second record (transition times are counts on the leap-second scale; known-finding role F3 excluded)'))
     if quick:
-        hs.append(H('c05_table_n1', cap=900, meaning='n<=1, same assertions (fast witness)'))
+        hs.append(H('c05_table_n1', cap=1500, meaning='n<=1, same assertions'))
     else:
-        hs += [H('c05_table_n3', cap=7200, meaning='n<=3'), H('c05_table_leap1_n2', cap=7200, required=False, meaning='n<=2 with one leap-second record')]
+        hs += [H('c05_table_n3', cap=7200, meaning='n<=3')]
     if not quick:
         hs.append(H('c05_rule_abstract', cap=9000, required=False, meaning='DST-rule zones, ALL years and ALL rules: real search and real forward lookup over abstract rule-day instants constrained by the contracts K1-K4 (discharged in C04), interleaving pattern assumed, known-finding role F2 (tie years) excluded: same assertions as the table harnesses'))
 
